@@ -189,11 +189,15 @@ fn gen_stage(rng: &mut Rng, corpus: &Corpus, second: bool) -> Stage {
                     text.push((b'a' + (text.len() % 26) as u8) as char);
                 }
             }
-            let r = match rng.below(5) {
+            let r = match rng.below(8) {
                 0 | 1 => json!({"var": ""}),
                 2 => json!({"log": {"var": ""}}),
                 3 => json!({"cat": [{"var": ""}]}),
-                _ => json!({"if": [true, {"var": ""}, 0]}),
+                4 => json!({"if": [true, {"var": ""}, 0]}),
+                // several log lines of very different sizes in one evaluation, in both orders
+                5 => json!({"and": [{"log": "first"}, {"log": {"var": ""}}, {"log": "last"}]}),
+                6 => json!({"and": [{"log": {"var": ""}}, {"log": "after"}]}),
+                _ => json!({"map": [["a", {"var": ""}, "b", {"var": ""}], {"log": {"var": ""}}]}),
             };
             (r, Value::String(text))
         }
